@@ -136,6 +136,36 @@ pub fn call_json(run: &Run, well_formed: bool) -> Value {
     v
 }
 
+/// A call record for the properties of the scanner / parser alone (no formatting).
+pub fn scan_only_call_json(run: &Run, well_formed: bool) -> Value {
+    let text = &run.text;
+    let mut v = json!({"cfg": cfg_json(&run.cfg), "wf": well_formed, "in": cps(text), "inb": text.len(), "ok": true, "out": [], "outb": 0});
+    if let Ok(tin) = lex(text) {
+        v["tin"] = toks_json(text, &tin);
+    }
+    if let Ok((kinds, lines)) = parse(text) {
+        v["pkinds"] = json!(kinds);
+        v["plines"] = lines_json(&lines);
+    }
+    v
+}
+
+pub fn lines_json(lines: &[Line]) -> Value {
+    Value::Array(
+        lines
+            .iter()
+            .map(|l| {
+                json!({
+                    "parent": match l.parent { Some((a, b)) => json!([a + 1, b + 1]), None => json!([]) },
+                    "level": l.level,
+                    "tokens": l.tokens.iter().map(|i| i + 1).collect::<Vec<_>>(),
+                    "typ": l.typ,
+                })
+            })
+            .collect(),
+    )
+}
+
 #[derive(Default)]
 pub struct Session {
     pub calls: Vec<Value>,
@@ -221,6 +251,34 @@ pub fn check_case(ctx: &mut Ctx, case: &Case, cfg: &Cfg, props: &[String], want_
             res.viols.push(v);
         }
     }
+    if has(props, "C13") {
+        if let Some(g) = case.meta.get("grid") {
+            bump(&mut res, "C13");
+            let (start, end) = (g["start"].as_u64().unwrap() as usize, g["end"].as_u64().unwrap() as usize);
+            let want = g["kind"].as_str().unwrap();
+            match tin.iter().find(|t| t.content_start() == start) {
+                None => res.viols.push(Viol { prop: "C13", clause: "grid_boundary", detail: format!("no token starts at byte {start}") }),
+                Some(t) => {
+                    let kind_ok = if want == "KEYWORD" { t.kind.starts_with("Keyword(") } else { t.kind == want };
+                    if t.end() != end || !kind_ok {
+                        res.viols.push(Viol { prop: "C13", clause: "grid_boundary", detail: format!("word [{start},{end}) {want}: scanner gives [{},{}) {}", t.content_start(), t.end(), t.kind) });
+                    }
+                }
+            }
+            let wk = g["wordkind"].as_str().unwrap_or("");
+            if matches!(wk, "ident" | "ident_" | "uident" | "kwsuffix" | "keyword") {
+                // the CPU-specific routines, one by one (first character already consumed by the dispatcher)
+                let first = text[start..].chars().next().map(|c| c.len_utf8()).unwrap_or(1);
+                for which in ["generic", "avx2", "dispatched"] {
+                    match guarded(|| pasfmt_core::defaults::lexer::verif_find_identifier_end(which, text, start + first)) {
+                        Ok(Some(e)) if e != end => res.viols.push(Viol { prop: "C13", clause: "routine_agreement", detail: format!("{which}: identifier [{start},{end}) ends at {e}") }),
+                        Ok(_) => {}
+                        Err(p) => res.viols.push(Viol { prop: "C13", clause: "routine_panic", detail: format!("{which}: {p}") }),
+                    }
+                }
+            }
+        }
+    }
     if has(props, "C14") {
         match parse(text) {
             Ok((kinds, lines)) => {
@@ -233,7 +291,14 @@ pub fn check_case(ctx: &mut Ctx, case: &Case, cfg: &Cfg, props: &[String], want_
         }
     }
 
-    // ---- the base call
+    // ---- the base call (not needed by the properties of the scanner and parser alone)
+    if !props.iter().any(|p| !matches!(p.as_str(), "C13" | "C14")) {
+        if want_session {
+            let r = Run { text: text.clone(), cfg: cfg.clone(), cursors_in: vec![], out: Ok(String::new()), cursors_out: vec![], events: vec![] };
+            res.session.calls.push(scan_only_call_json(&r, wf));
+        }
+        return res;
+    }
     let base = ctx.run(text, cfg, &[], true);
     let a = if want_session || !props.is_empty() { res.session.call(&base, wf) } else { 0 };
     let out = match &base.out {
@@ -287,9 +352,13 @@ pub fn check_case(ctx: &mut Ctx, case: &Case, cfg: &Cfg, props: &[String], want_
         res.session.rel("lecfg", a, b);
         if let Ok(o2) = &r2.out {
             bump(&mut res, "C09");
-            let (lf, crlf) = if cfg.line_ending == "crlf" { (o2, &out) } else { (&out, o2) };
-            if let Some(d) = c09_subst(&base, &r2, lf, crlf) {
-                res.viols.push(Viol { prop: "C09", clause: "crlf_is_lf_substituted", detail: d });
+            if norm_nl(&out) != norm_nl(o2) {
+                res.viols.push(Viol { prop: "C09", clause: "crlf_is_lf_substituted", detail: first_diff(&norm_nl(&out), &norm_nl(o2)) });
+            }
+            for v in c08_c09(&r2, o2, wf) {
+                if v.prop == "C09" {
+                    res.viols.push(v);
+                }
             }
         }
         // (iii) CRLF input = LF input
@@ -436,47 +505,6 @@ pub fn c11_widths(out: &str, base: u32) -> Vec<u32> {
     w
 }
 
-/// crlf result = lf result with each emitted terminator substituted (token-wise, on the final tables).
-pub fn c09_subst(r1: &Run, r2: &Run, lf: &str, crlf: &str) -> Option<String> {
-    let (ra, rb) = if r1.cfg.line_ending == "crlf" { (r2, r1) } else { (r1, r2) };
-    let (Some(fa), Some(fb)) = (final_stage(&ra.events), final_stage(&rb.events)) else {
-        return None;
-    };
-    let (Ok(sa), Ok(sb)) = (spans(lf, fa), spans(crlf, fb)) else {
-        return None;
-    };
-    if sa.len() != sb.len() {
-        return Some("different token counts".into());
-    }
-    let la = lex_stage(&ra.events)?;
-    for i in 0..sa.len() {
-        let wa = &lf[sa[i].ws_start..sa[i].start];
-        let wb = &crlf[sb[i].ws_start..sb[i].start];
-        let ta = &lf[sa[i].start..sa[i].end];
-        let tb = &crlf[sb[i].start..sb[i].end];
-        let ignored = fa.fmt[i][0] != 0;
-        if ignored {
-            // verbatim white space; a safety-net break may precede it
-            let ok = wa == wb || (wb.strip_prefix("\r\n") == wa.strip_prefix('\n') && wa.starts_with('\n'));
-            if !ok || ta != tb {
-                return Some(format!("ignored token {i}: {wa:?}{ta:?} vs {wb:?}{tb:?}"));
-            }
-            continue;
-        }
-        if wa.replace('\n', "\r\n") != wb {
-            return Some(format!("token {i}: whitespace {wa:?} (lf) vs {wb:?} (crlf)"));
-        }
-        let orig = la.texts.get(i).map(|t| t.as_str()).unwrap_or("");
-        let rewritable = fa.kinds[i] == "TextLiteral(MultiLine)" && ra.cfg.format_multiline_strings && ml_value(orig).is_some();
-        let ok = if rewritable {
-            // every interior terminator is emitted by the formatter
-            !ta.contains('\r') && ta.replace('\n', "\r\n") == tb
-        } else {
-            ta == tb
-        };
-        if !ok {
-            return Some(format!("token {i} text: {ta:?} (lf) vs {tb:?} (crlf)"));
-        }
-    }
-    None
+pub fn norm_nl(s: &str) -> String {
+    s.replace("\r\n", "\n")
 }
